@@ -4,7 +4,6 @@ package main
 // are `len(x)+k` or integer constants; index expressions are `i+c`.
 
 import (
-	"fmt"
 	"go/ast"
 	"go/token"
 	"go/types"
@@ -15,19 +14,6 @@ type Aff struct {
 	Of ast.Expr
 	K  int64
 	ok bool
-}
-
-func (a Aff) String() string {
-	if !a.ok {
-		return "?"
-	}
-	if a.Of == nil {
-		return fmt.Sprint(a.K)
-	}
-	if a.K == 0 {
-		return "len(" + src(a.Of) + ")"
-	}
-	return fmt.Sprintf("len(%s)%+d", src(a.Of), a.K)
 }
 
 func (a Aff) plus(k int64) Aff { a.K += k; return a }
@@ -181,14 +167,6 @@ type Loop struct {
 	Hi    Aff          // one past the largest index visited
 	Down  bool
 	Range bool
-}
-
-func (l *Loop) String() string {
-	d := "up"
-	if l.Down {
-		d = "down"
-	}
-	return fmt.Sprintf("[%s, %s) %s", l.Lo, l.Hi, d)
 }
 
 // loopOf recognises `for`/`range` loops over an index interval.  It returns
@@ -370,80 +348,4 @@ func (s *fnScope) writtenIn(obj types.Object, n ast.Node) bool {
 		return !w
 	})
 	return w
-}
-
-// idxOffset: if e is `i + c` for the loop index i, returns c.
-func (s *fnScope) idxOffset(e ast.Expr, idx types.Object) (int64, bool) {
-	e = unparen(e)
-	if objOf(s.info, e) == idx && idx != nil {
-		return 0, true
-	}
-	if b, ok := e.(*ast.BinaryExpr); ok && (b.Op == token.ADD || b.Op == token.SUB) {
-		if objOf(s.info, b.X) == idx && idx != nil {
-			if k, ok := constInt(s.info, b.Y); ok {
-				if b.Op == token.SUB {
-					k = -k
-				}
-				return k, true
-			}
-		}
-		if b.Op == token.ADD && objOf(s.info, b.Y) == idx && idx != nil {
-			if k, ok := constInt(s.info, b.X); ok {
-				return k, true
-			}
-		}
-	}
-	return 0, false
-}
-
-// earlyExits lists break/continue/return/goto statements inside a loop body that
-// belong to this loop (not nested loops for break/continue; returns always).
-func earlyExits(body *ast.BlockStmt) (breaks, continues []*ast.BranchStmt, returns []*ast.ReturnStmt) {
-	var walk func(n ast.Node, inNested bool, inSwitch bool)
-	walk = func(n ast.Node, inNested, inSwitch bool) {
-		ast.Inspect(n, func(m ast.Node) bool {
-			if m == nil || m == n {
-				return true
-			}
-			switch m := m.(type) {
-			case *ast.FuncLit:
-				return false
-			case *ast.ForStmt:
-				walk(m.Body, true, false)
-				return false
-			case *ast.RangeStmt:
-				walk(m.Body, true, false)
-				return false
-			case *ast.SwitchStmt:
-				walk(m.Body, inNested, true)
-				return false
-			case *ast.TypeSwitchStmt:
-				walk(m.Body, inNested, true)
-				return false
-			case *ast.ReturnStmt:
-				returns = append(returns, m)
-			case *ast.BranchStmt:
-				if m.Label != nil {
-					if m.Tok == token.BREAK {
-						breaks = append(breaks, m)
-					} else {
-						continues = append(continues, m)
-					}
-					return true
-				}
-				if m.Tok == token.BREAK && !inNested && !inSwitch {
-					breaks = append(breaks, m)
-				}
-				if m.Tok == token.CONTINUE && !inNested {
-					continues = append(continues, m)
-				}
-				if m.Tok == token.GOTO {
-					breaks = append(breaks, m)
-				}
-			}
-			return true
-		})
-	}
-	walk(body, false, false)
-	return
 }
